@@ -9,6 +9,8 @@ package vh
 import (
 	"fmt"
 	"github.com/semihalev/twig"
+	"os"
+	"path/filepath"
 	"strings"
 	"testing"
 	"time"
@@ -456,7 +458,7 @@ func init() { reg("C14.soup", checkC14Soup) }
 // ---- sizes x routes -------------------------------------------------------------------------------
 
 type C14RouteCase struct {
-	Route string `json:"route"` // register | loader | parse | registerTemplate | compiled
+	Route string `json:"route"` // register | loader | file | filechain | parse | registerTemplate | compiled
 	Pad   int    `json:"pad"`
 }
 
@@ -466,9 +468,28 @@ func checkC14Route(c C14RouteCase) error {
 	want := "A7<" + pad + ">7Z"
 	ctx := map[string]interface{}{"a": 7}
 	var e *twig.Engine
+	var root string
+	defer func() {
+		if root != "" {
+			os.RemoveAll(root)
+		}
+	}()
 	r := guard(func() (string, error) {
 		e = twig.New()
 		switch c.Route {
+		case "file", "filechain":
+			var err error
+			if root, err = os.MkdirTemp(workDir(), "c14-"); err != nil {
+				return "", err
+			}
+			if err := os.WriteFile(filepath.Join(root, "big.twig"), []byte(src), 0o644); err != nil {
+				return "", err
+			}
+			if c.Route == "file" {
+				e.RegisterLoader(twig.NewFileSystemLoader([]string{root}))
+			} else {
+				e.RegisterLoader(twig.NewChainLoader([]twig.Loader{twig.NewArrayLoader(map[string]string{"other": "o"}), twig.NewFileSystemLoader([]string{filepath.Join(root, "none"), root})}))
+			}
 		case "register":
 			if err := e.RegisterString("big", src); err != nil {
 				return "", err
@@ -521,7 +542,7 @@ func checkC14Route(c C14RouteCase) error {
 // TestC14Routes: the same small program around literal text of growing size, registered,
 // loaded, parsed, registered as a template object and loaded from compiled data.
 func TestC14Routes(t *testing.T) {
-	r := NewRec(t, "C14", "exhaustive: five ways of getting a template into an engine (RegisterString, loader, ParseTemplate, RegisterTemplate, compiled data) x literal text of 0 .. 2 MiB around the powers of two (4096, 8192, 32768, 65536, 131072, 262144, 1048576, 2097152, each -1/0/+1) in the middle of a small program; rendered, rendered again and included; oracle: program output with the text in place; non-trivial = text above 4096 bytes")
+	r := NewRec(t, "C14", "exhaustive: seven ways of getting a template into an engine (RegisterString, array loader, a file under a FileSystemLoader, the same behind a ChainLoader, ParseTemplate, RegisterTemplate, compiled data) x literal text of 0 .. 2 MiB around the powers of two (4096, 8192, 32768, 65536, 131072, 262144, 1048576, 2097152, each -1/0/+1) in the middle of a small program; rendered, rendered again and included; oracle: program output with the text in place; non-trivial = text above 4096 bytes")
 	defer r.Flush()
 	r.SetExhaustive()
 	var pads []int
@@ -529,7 +550,7 @@ func TestC14Routes(t *testing.T) {
 		pads = append(pads, p-1, p, p+1)
 	}
 	pads = append(pads, 0, 1, 100)
-	for _, route := range []string{"register", "loader", "parse", "registerTemplate", "compiled"} {
+	for _, route := range []string{"register", "loader", "file", "filechain", "parse", "registerTemplate", "compiled"} {
 		for _, p := range pads {
 			c := C14RouteCase{Route: route, Pad: p}
 			r.Case(fmt.Sprint(route, p), p > 4096, c, "route:"+route)
